@@ -35,15 +35,12 @@ VARIABLES c, e,      \* case and event cursor
           kst,       \* k-means specification state [init, sum, cnt]
           used2      \* set of deviations needed so far
 
-tvars == <<c, e, pos, prev, kst, used2>>
-
 Case == Rec[c]
 In   == Case.inp
 Ev   == Case.ev[e]
 D    == In.d
 
 NoKm == [init |-> <<>>, sum |-> <<>>, cnt |-> <<>>]
-KmStart == [init |-> In.cent, sum |-> [cl \in 1..In.k |-> [j \in 1..D |-> 0]], cnt |-> [cl \in 1..In.k |-> 0]]
 
 TraceInit ==
   /\ c \in 1..Len(Rec) /\ e = 1 /\ pos = 0 /\ prev = <<>> /\ used2 = {}
@@ -55,8 +52,6 @@ TraceInit ==
   \* the design-model variables are not used during trace validation
   /\ drows = <<>> /\ dlabs = <<>> /\ dcut = <<>> /\ b = 0 /\ used = 0 /\ g = <<>> /\ mn = <<>> /\ km = <<>> /\ ksum = <<>>
 
-HasEv(name) == e <= Len(Case.ev) /\ Ev.ev = name
-Adv == e' = e + 1 /\ UNCHANGED <<c, dvars>>
 
 -----------------------------------------------------------------------------
 (* naive Bayes *)
